@@ -1020,6 +1020,11 @@ ppm_export			(vbi_export *		e,
 		const vbi_rgba *s;
 		unsigned int count;
 
+		/* vbi_draw_vt_page_region() skips VBI_OVER_TOP and
+		   VBI_OVER_BOTTOM cells, which may lack a double width
+		   neighbour. */
+		memset (rgba_row_buffer, 0, rgba_row_size);
+
 		if (pg->columns < 40) {
 			vbi_draw_cc_page_region (pg, VBI_PIXFMT_RGBA32_LE,
 						 rgba_row_buffer,
@@ -1195,8 +1200,19 @@ draw_row_indexed(vbi_page * pg, vbi_char * ac, uint8_t * canvas, uint8_t * pen,
 					/*
 					 *  Transparent foreground and background.
 					 */
+					/*
+					 *  A double width or double size character
+					 *  also covers the VBI_OVER_TOP or
+					 *  VBI_OVER_BOTTOM cell to its right, which is
+					 *  skipped above.
+					 */
                         draw_blank(sizeof(*canvas), canvas,
-						   rowstride, VBI_TRANSPARENT_BLACK, cw, ch);
+						   rowstride, VBI_TRANSPARENT_BLACK,
+						   ((VBI_DOUBLE_WIDTH == ac->size
+						     || VBI_DOUBLE_SIZE == ac->size
+						     || VBI_DOUBLE_SIZE2 == ac->size)
+						    && column + 1 < pg->columns) ?
+						   cw * 2 : cw, ch);
 					break;
 
 				case VBI_TRANSPARENT_FULL:
@@ -1586,6 +1602,10 @@ xpm_export			(vbi_export *		e,
 		goto failed;
 
         for (row = 0; row < (unsigned int) pg->rows; ++row) {
+		/* draw_row_indexed() skips VBI_OVER_TOP and VBI_OVER_BOTTOM
+		   cells, which may lack a double width neighbour. */
+		memset (indexed_image, 0, image_width * char_height);
+
                 draw_row_indexed (pg, &pg->text[row * pg->columns],
 				  indexed_image, pen, image_width,
 				  !e->reveal, pg->columns < 40);
@@ -1817,6 +1837,10 @@ png_export(vbi_export *e, vbi_page *pg)
 	}
 
         /* draw the image */
+
+	/* draw_row_indexed() skips VBI_OVER_TOP and VBI_OVER_BOTTOM
+	   cells, which may lack a double width neighbour. */
+	memset (image, 0, wh * ww * sizeof(*image));
 
         if (pg->drcs_clut) {
                 for (i = 2; i < 2 + 8 + 32; i++) {
